@@ -104,6 +104,12 @@ func (g *malGen) value(depth int) interface{} {
 			a = append(a, g.value(depth-1))
 		}
 		return a
+	case 4:
+		// almost valid: the two-number arrays of $mod / $slice, bit positions,
+		// with zeros and extremes
+		nums := []interface{}{int32(0), int64(0), float64(0), math.Copysign(0, -1), int32(1), int32(-1), int64(math.MaxInt64), int64(math.MinInt64),
+			math.NaN(), math.Inf(-1), float64(1 << 62), int32(3), float64(0.5), int32(math.MinInt32)}
+		return bson.A{pick(r, nums), pick(r, nums)}
 	case 3:
 		return pick(r, []interface{}{math.NaN(), math.Inf(1), math.Inf(-1), int64(math.MaxInt64), int64(math.MinInt64), int32(math.MinInt32),
 			float64(1e300), float64(-1e300), float64(9.3e18), float64(-9.3e18), math.Copysign(0, -1), float64(1 << 62), float64(5e-324), int64(0), int32(0), ""})
